@@ -43,6 +43,12 @@ def replay(prop, path):
     rp = common.Replay('debug')
     fresh = rp.ask(cmd)
     rp.close()
+    if cmd.startswith('threads '):
+        # timings differ from run to run: what is compared is whether thread_manager::run returned before the watchdog
+        print('command    :', cmd)
+        print('recorded   :', str(recorded)[:300])
+        print('fresh      :', fresh[:300])
+        return 1 if fresh.startswith('ok hung') == str(recorded).startswith('ok hung') else 0
     print('command    :', cmd[:300])
     print('recorded   :', str(recorded)[:600])
     print('fresh      :', fresh[:600])
